@@ -155,6 +155,8 @@ impl AgentStatusSharedState {
             let mut http_connection_count: u128 = 0;
 
             while let Some(action) = rx.recv().await {
+                #[cfg(gpa_verif)]
+                crate::verif_hook::delay_point("actor_agent_status").await;
                 match action {
                     AgentStatusAction::SetStatusMessage {
                         message,
